@@ -189,6 +189,13 @@ def body(ch, ctx):
         got = db.region(region=lim_t, completely_within=cw, strand=strand, featuretype=ft)
         exp = brute(feats, S1, s, e, cw, strand, ft)
     elif form == "string":
+        if s == cs[0] and e == cs[-1] and not cw:
+            # the string may name the sequence only: everything on it (with the strand / featuretype restrictions)
+            whole = sorted(f.id for f in db.region(region=S1, strand=strand, featuretype=ft) if f.id not in ("R", "L"))
+            want_whole = brute(feats, S1, -10 ** 12, 10 ** 12, False, strand, ft)
+            ctx.check(whole == want_whole, "query-result-differs", dict(sig, form="string-seqid-only", missing=bool(set(want_whole) - set(whole)),
+                                                                        extra=bool(set(whole) - set(want_whole))),
+                      region=S1, n_expected=len(want_whole), n_got=len(whole))
         if strand is not None and cw:
             # the strand written into the string itself: 'seqid:start-end:strand'
             got = db.region(region="%s:%s" % (lim_s, strand), completely_within=cw, featuretype=ft)
